@@ -183,7 +183,7 @@ impl<T: ScalarMul> BatchMulPreprocessing<T> {
         let window = Self::compute_window_size(num_scalars);
         let in_window = 1 << window;
         let outerc = max_scalar_size.div_ceil(window);
-        let last_in_window = 1 << (max_scalar_size - (outerc - 1) * window);
+        let last_in_window = 1 << (max_scalar_size - outerc.saturating_sub(1) * window);
 
         let mut multiples_of_g = vec![vec![T::zero(); in_window]; outerc];
 
@@ -240,7 +240,8 @@ impl<T: ScalarMul> BatchMulPreprocessing<T> {
         let modulus_size = T::ScalarField::MODULUS_BIT_SIZE as usize;
         let scalar_val = scalar.into_bigint().to_bits_le();
 
-        let mut res = T::from(self.table[0][0]);
+        // (an empty table, for `max_scalar_size == 0`, only represents the scalar zero)
+        let mut res = T::zero();
         for outer in 0..outerc {
             let mut inner = 0usize;
             for i in 0..self.window {
